@@ -527,8 +527,11 @@ impl Local {
     /// Increments the handle count.
     #[inline]
     pub(crate) fn acquire_handle(&self) {
+        // The count may be zero here: a guard obtained through the fallback registration (`cs()` in a
+        // thread-local destructor after `HANDLE` is gone) outlives its temporary handle, and
+        // `Guard::reactivate` on it goes through `repin`, which takes a handle to keep the
+        // participant from being finalized while it is unpinned.
         let handle_count = self.handle_count.get();
-        debug_assert!(handle_count >= 1);
         self.handle_count.set(handle_count + 1);
     }
 
